@@ -6,7 +6,7 @@
    revocation / expiry and clock advance. *)
 From Coq Require Import List ZArith.
 From Verif Require Import Base.KV Locks.Interleave Locks.LockLog Locks.EtcdLock Locks.EtcdLockProofs
-  Locks.RedisLock Locks.RedisLockProofs.
+  Locks.EtcdAcceptProofs Locks.RedisLock Locks.RedisLockProofs.
 
 (* ---- etcd ---- *)
 Theorem C18_etcd_mutex : forall s i j a b,
@@ -59,6 +59,14 @@ Theorem C18_etcd_wait_timeout : forall s i c,
                    nth_error (s_cs s2) i = Some c2 /\ c_pc c2 = Failed ErrDeadline.
 Proof. exact etcd_wait_timeout. Qed.
 Print Assumptions C18_etcd_wait_timeout.
+
+(* the tie between the three parts: an event log (with no injected loss) that the
+   trace acceptor explains by the model has no overlapping critical sections, so
+   an implementation run that breaks mutual exclusion also breaks agreement *)
+Theorem C18_etcd_agree_implies_mutex_ok : forall c,
+  EtcdLock.agree c = true -> no_lose (k_log c) -> mutex_ok (k_log c) = true.
+Proof. exact etcd_agree_implies_mutex_ok. Qed.
+Print Assumptions C18_etcd_agree_implies_mutex_ok.
 
 (* ---- redis ---- *)
 Theorem C18_redis_mutex : forall s i j a b,
